@@ -564,6 +564,18 @@ def gen_history(rng):
             if fn in ('enc', 'dec'):
                 c['rate'] = rng.choice(RATES)
         sites.append(c)
+        # a sibling site: same function and argument object, ONE scalar argument different (larger and smaller duration,
+        # other offset / length, other rate) - state keyed on part of the arguments goes stale inside this history
+        if fn in ('crop', 'repeat', 'enc', 'dec') and rng.random() < 0.7:
+            c2 = dict(c, fresh=rng.random() < 0.4)
+            if fn == 'repeat':
+                c2['duration'] = c['duration'] * rng.choice([0.3, 0.5, 1.7, 2.5, 4.0])
+            elif fn == 'crop':
+                k2 = rng.choice(['begin', 'length'])
+                c2[k2] = rng.randrange(0, m + 1) / rate if k2 == 'begin' else rng.randrange(1, m + 3) / rate
+            else:
+                c2['rate'] = rng.choice([r for r in RATES if r != c['rate']])
+            sites.append(c2)
     ops, ncalls, last = [], 0, {}
     order = []
     for i, c in enumerate(sites):
@@ -750,7 +762,8 @@ def run(chk):
                 'Python ints, at/beyond the end, multiples of the signal length; stereo: all length relations and dtype pairs; '
                 'crop / repeat also on stereo input [n, 2] in the layout make_stereo returns and C-contiguous; '
                 'malformed streams: wrong dtypes, negative seconds, empty input, rate 0, duration <= 0, non-16-bit WAV, garbage bytes; '
-                'history: 4-7 call sites over the seven functions of the statement, each called 2-3 times in one process from a pool of '
+                'history: 4-12 call sites over the seven functions of the statement (sibling sites differ in one scalar argument), '
+                'each called 2-3 times in one process from a pool of '
                 'argument objects, interleaved, with in-place modification of earlier results / argument objects in between, results '
                 'checked against the reference on the current argument contents and for shared memory. '
                 'non-trivial = distinct request whose result is a value with at least one sample')
@@ -902,6 +915,7 @@ def run(chk):
             nfail += 1
             m = int(r.split()[1])
             chk.fail(r, {'kind': 'history', 'pool': h['pool'], 'ops': h['ops'][:m]})
+            chk.failures.insert(0, chk.failures.pop())      # self-contained whatever the cause (state or not): reported first
 
     # ---- run the model on the same requests and diff exactly
     model = chk.driver(EXE, [e['req'] for e in ents])
